@@ -50,9 +50,12 @@ package c02
 
 import (
 	"context"
+	"errors"
 	"fmt"
 	"math"
+	"regexp"
 	"sort"
+	"strconv"
 	"strings"
 	"sync"
 	"sync/atomic"
@@ -101,10 +104,10 @@ type Op struct {
 	// option (see A); 1 two WithAttributes options (list cut in the middle);
 	// 2 one WithAttributes option per key, keys in DESCENDING order; 3
 	// WithAttributeSet(first half) followed by WithAttributes(second half)
-	M int `json:"m,omitempty"`
-	R int    `json:"r,omitempty"` // collect: reader index
-	F bool   `json:"f,omitempty"` // collect: use a fresh ResourceMetrics instead of the goroutine's reused one
-	D int    `json:"d,omitempty"` // sleep: 0 300us, 1 1ms, 2 3ms, 3 6ms
+	M int  `json:"m,omitempty"`
+	R int  `json:"r,omitempty"` // collect: reader index
+	F bool `json:"f,omitempty"` // collect: use a fresh ResourceMetrics instead of the goroutine's reused one
+	D int  `json:"d,omitempty"` // sleep: 0 300us, 1 1ms, 2 3ms, 3 6ms
 }
 
 // Case is one generated program.
@@ -127,6 +130,13 @@ type Case struct {
 	// Stream{Aggregation: AggregationSum{}}) - the default aggregation of every
 	// generated instrument kind, stated explicitly.
 	SumView bool `json:"sum_view,omitempty"`
+	// FailCB: an UNRELATED observable gauge of the same provider whose
+	// callback fails (and observes nothing): 1 instrument callback failing on
+	// every collection, 2 a RegisterCallback callback failing on every
+	// collection, 3 instrument callback failing on every other collection.
+	// Collect / ForceFlush / Shutdown then report that error, but the sums of
+	// the counters are collected all the same and must not be lost.
+	FailCB int `json:"fail_cb,omitempty"`
 }
 
 func kvI(k string, v int64) vk.KV   { return vk.KV{K: vk.Str(k), T: "int", I: v} }
@@ -297,6 +307,7 @@ func gen(t *rapid.T) Case {
 	c.Runs = 2
 	c.Broken = rapid.SampledFrom([]string{"", "", "", "", "", "first", "last"}).Draw(t, "broken_reader")
 	genSumView(t, &c)
+	c.FailCB = rapid.SampledFrom([]int{0, 0, 0, 0, 0, 1, 2, 3}).Draw(t, "failing_callback")
 	return c
 }
 
@@ -324,6 +335,7 @@ func genSeq(t *rapid.T) Case {
 	c.Runs = 1
 	c.Broken = rapid.SampledFrom([]string{"", "", "", "", "first", "last"}).Draw(t, "broken_reader")
 	genSumView(t, &c)
+	c.FailCB = rapid.SampledFrom([]int{0, 0, 0, 0, 1, 2, 3}).Draw(t, "failing_callback")
 	return c
 }
 
@@ -572,6 +584,38 @@ func (e *recExporter) Export(_ context.Context, rm *metricdata.ResourceMetrics) 
 func (e *recExporter) ForceFlush(context.Context) error { return nil }
 func (e *recExporter) Shutdown(context.Context) error   { return nil }
 
+var errFailCB = errors.New("c02: scripted callback failure")
+
+var readerRe = regexp.MustCompile(`^reader (\d+) \(delta\)`)
+
+// known holds the predicates of the open findings in known_findings.json.
+var known = map[string]func(Case, vk.Violation) bool{
+	// A PeriodicReader does not export a collection during which a callback
+	// failed (collectAndExport: Export only when Collect returned nil) although
+	// the collection has already drained the delta sums: those measurements
+	// are reported by no export. Matches only missing data of a DELTA
+	// PERIODIC reader in a case with a failing callback.
+	"periodic_delta_dropped_when_callback_fails": func(c Case, v vk.Violation) bool {
+		if c.FailCB == 0 || c.Broken != "" || c.SumView {
+			return false
+		}
+		switch v.Kind {
+		case "stream_not_reported", "delta_bracket", "delta_conservation":
+		default:
+			return false
+		}
+		m := readerRe.FindStringSubmatch(v.Msg)
+		if m == nil {
+			return false
+		}
+		ri, _ := strconv.Atoi(m[1])
+		if ri >= len(c.Readers) || c.Readers[ri].Kind != "periodic" {
+			return false
+		}
+		return !strings.HasSuffix(v.Msg, ": a measurement was counted more than once")
+	},
+}
+
 type collector interface {
 	Collect(context.Context, *metricdata.ResourceMetrics) error
 }
@@ -713,6 +757,29 @@ func runOnce(c Case) ([]vk.Violation, map[string]bool) {
 			bad("instrument_creation", "creating %s %s reported no error although one reader asks for an aggregation that is incompatible with it", in.Kind, name)
 		}
 	}
+	// (not together with the match-all sum view or the misconfigured reader:
+	// creating the gauge would itself report an error there)
+	if c.FailCB != 0 && c.Broken == "" && !c.SumView {
+		var calls atomic.Int64
+		fail := func() error {
+			if c.FailCB == 3 && calls.Add(1)%2 == 0 {
+				return nil
+			}
+			return errFailCB
+		}
+		if c.FailCB == 2 {
+			g, err := meters[1].Int64ObservableGauge("failing_gauge")
+			if err == nil {
+				_, err = meters[1].RegisterCallback(func(context.Context, metric.Observer) error { return fail() }, g)
+			}
+			if err != nil {
+				bad("instrument_creation", "registering the failing callback: %v", err)
+			}
+		} else if _, err := meters[0].Int64ObservableGauge("failing_gauge", metric.WithInt64Callback(func(context.Context, metric.Int64Observer) error { return fail() })); err != nil {
+			bad("instrument_creation", "creating the failing gauge: %v", err)
+		}
+		classes["unrelated_callback_fails"] = true
+	}
 	attrs := make([][]attribute.KeyValue, len(c.Sets))
 	asets := make([]attribute.Set, len(c.Sets))
 	keys := make([]string, len(c.Sets))
@@ -797,10 +864,18 @@ func runOnce(c Case) ([]vk.Violation, map[string]bool) {
 		a.done = true
 	}
 	var collectErrs atomic.Int32
+	var classesMu sync.Mutex
 	doCollect := func(ri int, rm *metricdata.ResourceMetrics) *consumer {
 		start := clock.Tick()
 		err := colls[ri].Collect(ctx, rm)
 		end := clock.Tick()
+		if err != nil && c.FailCB != 0 && errors.Is(err, errFailCB) {
+			// only the unrelated callback failed: the collection was made
+			classesMu.Lock()
+			classes["collect_reported_callback_error_with_data"] = true
+			classesMu.Unlock()
+			err = nil
+		}
 		if err != nil {
 			collectErrs.Add(1)
 			return nil
@@ -1359,7 +1434,7 @@ func TestSequentialModel(t *testing.T) {
 		Rule: "the same instruments / attribute-set pool / readers as sum_conservation, but one goroutine issuing 1-80 Adds, Collects (any reader, reused or fresh ResourceMetrics), ForceFlushes and rare sleeps in sequence, final Collect, Shutdown, late calls: every bracket collapses to equality with the model at every collection point (interval exports of periodic readers still run beside it); " +
 			"non-trivial = >= 2 Adds and at least one Add between two collection points; distinct = distinct case encodings",
 		Quick: 1500, Thorough: 15000,
-		Gen: genSeq, Run: runSeq, Repeat: 20,
+		Gen: genSeq, Run: runSeq, Repeat: 20, Known: known,
 	})
 }
 
@@ -1369,7 +1444,7 @@ func TestSumConservation(t *testing.T) {
 		Rule: "generated concurrent programs: 1-4 instruments (Int64/Float64 Counter/UpDownCounter, two meters), a pool of 1-6 near-identical attribute sets, 1-3 readers (ManualReader or PeriodicReader with a recording exporter and a 1 ms - 5 ms or 1 h interval; delta / cumulative / delta-for-counters temporality), 1-4 barrier-separated phases of 1-8 recorder goroutines (0-200 Adds of exact, pairwise distinct values, <= 1000 per program) and 0-3 collector goroutines (Collect on any reader, provider ForceFlush, sleeps) with generated schedule perturbations, a final Collect on manual readers, Shutdown (optionally racing further Adds) and late calls; each program is executed twice; " +
 			"non-trivial = >= 1 collection (Collect / ForceFlush by logical-clock overlap, or an export whose collection window contains an Add) ran concurrently with >= 1 Add and >= 2 collections happened; distinct = distinct case encodings",
 		Quick: 300, Thorough: 3000,
-		Gen: gen, Run: run, Repeat: 100,
+		Gen: gen, Run: run, Repeat: 100, Known: known,
 		ShrinkTime: 30 * time.Second,
 	})
 }
